@@ -388,6 +388,14 @@ pub fn run(r: &mut Runner) {
     r.probe("accepts-malformed:invalid-attribute", |c| probe_doc(c, "Tagging", "<Tagging x<y=\"1\"><TagSet></TagSet></Tagging>", "accepts-malformed:invalid-attribute"));
     r.probe("accepts-malformed:invalid-character-data", |c| probe_doc(c, "Tagging", "<Tagging><TagSet><Tag><Key>a\u{0}b</Key><Value>v</Value></Tag></TagSet></Tagging>", "accepts-malformed:invalid-character-data"));
     r.probe("accepts-malformed:unterminated-entity", |c| probe_doc(c, "Tagging", "<Tagging>&<TagSet></TagSet></Tagging>", "accepts-malformed:unterminated-entity"));
+    // regression inputs of the second round of well-formedness repairs (several were found by the libFuzzer stage)
+    r.probe("regress:cdata-end-in-text", |c| probe_doc(c, "Tagging", "<Tagging><TagSet><Tag><Key>a]]>b</Key><Value>v</Value></Tag></TagSet></Tagging>", "accepts-malformed:invalid-character-data"));
+    r.probe("regress:double-hyphen-in-comment", |c| probe_doc(c, "Tagging", "<Tagging><!-- a -- b --><TagSet></TagSet></Tagging>", "accepts-malformed:invalid-comment"));
+    r.probe("regress:declaration-inside", |c| probe_doc(c, "Tagging", "<Tagging><?xml version=\"1.0\"?><TagSet></TagSet></Tagging>", "accepts-malformed:unknown-token"));
+    r.probe("regress:doctype-any-case", |c| probe_doc(c, "Tagging", "<Tagging><!DOCTyPET><TagSet></TagSet></Tagging>", "accepts-malformed:unknown-token"));
+    r.probe("regress:attribute-empty-local-part", |c| probe_doc(c, "Tagging", "<Tagging xmlns:=\"x\"><TagSet></TagSet></Tagging>", "accepts-malformed:invalid-attribute"));
+    r.probe("regress:form-feed-before-root", |c| probe_doc(c, "Tagging", "\u{c}<Tagging><TagSet></TagSet></Tagging>", "accepts-malformed:text-before-root"));
+    r.probe("regress:unknown-entity-in-skipped-text", |c| probe_doc(c, "Tagging", "<Tagging>&Lt;<TagSet></TagSet></Tagging>", "accepts-malformed:unterminated-entity"));
     let n_types = codecs().len() as u64;
     r.note(format!("{n_types} XML codec types read from the tree"));
     r.search("roundtrip", r.scale(60_000, 2_000_000), 1536, roundtrip);
